@@ -50,7 +50,7 @@ class LuceneCheck:
         self.zeal = zeal
 
     def _check_field_name(self, fname):
-        return self.field_name_re.match(fname) is not None
+        return self.field_name_re.fullmatch(fname) is not None
 
     @_check_children
     def check_search_field(self, item, parents):
